@@ -63,7 +63,24 @@ pub enum Mode {
     Wild,
 }
 
+/// The identifier of a generated calibration, kept so that bodies and programs can invoke it on purpose.
+#[derive(Clone)]
+pub struct Header {
+    /// `None`: a DEFCAL MEASURE
+    pub gate: Option<(&'static str, Option<u32>)>,
+    /// measurement name suffix ("" or "!alt")
+    pub mname: &'static str,
+    pub modifier: &'static str,
+    /// parameter texts (`%t` or a literal)
+    pub params: Vec<String>,
+    /// qubit texts (a variable name or a number)
+    pub qubits: Vec<String>,
+    pub formal: Option<&'static str>,
+}
+
 pub struct Ctx<'a> {
+    /// the calibrations of the program under construction
+    pub headers: &'a [Header],
     /// qubit variables in scope
     pub qvars: Vec<&'a str>,
     /// parameter variables in scope
@@ -117,6 +134,72 @@ fn gate_param(rng: &mut Rng, cx: &Ctx, arith: bool) -> String {
     }
 }
 
+fn is_number(t: &str) -> bool {
+    t.chars().all(|c| c.is_ascii_digit())
+}
+
+/// may a body in context `cx` invoke a gate of group/rank `g`?  (module comment; anything goes at top level
+/// and in `Mode::Wild`)
+fn may_invoke(cx: &Ctx, g: Option<u32>) -> bool {
+    match (cx.mode, cx.top_level, cx.rank, g) {
+        (Mode::Wild, _, _, _) | (_, true, _, _) => true,
+        (_, _, Some(r), Some(gr)) => gr > r,
+        (_, _, Some(_), None) => true,
+        (_, _, None, Some(_)) => false,
+        (_, _, None, None) => true,
+    }
+}
+
+/// An instruction built to match calibration `h` (most of the time): fixed qubits and literal parameters are
+/// copied, variables are instantiated from the context.
+fn invoke(rng: &mut Rng, cx: &Ctx, h: &Header) -> String {
+    let qubits: Vec<String> = h
+        .qubits
+        .iter()
+        .map(|q| if is_number(q) && rng.chance(5, 6) { q.clone() } else { qubit(rng, cx) })
+        .collect();
+    match h.gate {
+        Some((name, grp)) => {
+            let arith = cx.mode == Mode::Wild || cx.top_level || (cx.rank.is_some() && grp.is_some());
+            let params: Vec<String> = h
+                .params
+                .iter()
+                .map(|p| if !p.starts_with('%') && rng.chance(5, 6) { p.clone() } else { gate_param(rng, cx, arith) })
+                .collect();
+            let modifier = if rng.chance(11, 12) { h.modifier } else { "DAGGER " };
+            if params.is_empty() {
+                format!("{modifier}{name} {}", qubits.join(" "))
+            } else {
+                format!("{modifier}{name}({}) {}", params.join(", "), qubits.join(" "))
+            }
+        }
+        None => {
+            if h.formal.is_some() && rng.chance(9, 10) {
+                format!("MEASURE{} {} {}", h.mname, qubits[0], target(rng, cx))
+            } else {
+                format!("MEASURE{} {}", h.mname, qubits[0])
+            }
+        }
+    }
+}
+
+/// a gate or measurement aimed at one of the program's calibrations, if the discipline allows any
+fn invoke_some(rng: &mut Rng, cx: &Ctx) -> Option<String> {
+    let allowed: Vec<&Header> = cx
+        .headers
+        .iter()
+        .filter(|h| match h.gate {
+            Some((_, grp)) => may_invoke(cx, grp),
+            None => may_invoke(cx, None),
+        })
+        .collect();
+    if allowed.is_empty() {
+        return None;
+    }
+    let h = *rng.pick(&allowed);
+    Some(invoke(rng, cx, h))
+}
+
 pub fn gate(rng: &mut Rng, cx: &Ctx) -> String {
     // which names may be invoked here
     let allowed: Vec<&(&str, usize, usize, Option<u32>)> = GATES
@@ -166,6 +249,11 @@ pub fn measure(rng: &mut Rng, cx: &Ctx) -> String {
 
 /// One body instruction (of a calibration, or of the program when `cx.top_level`).
 pub fn body_instruction(rng: &mut Rng, cx: &Ctx) -> String {
+    if rng.chance(if cx.top_level { 3 } else { 2 }, 5) {
+        if let Some(t) = invoke_some(rng, cx) {
+            return t;
+        }
+    }
     let q = qubit(rng, cx);
     match rng.below(40) {
         0..=11 => gate(rng, cx),
@@ -222,61 +310,61 @@ fn defcal_text(header: String, body: Vec<String>) -> String {
     s
 }
 
-/// A random gate calibration for one of the names of `GATES`.
-pub fn random_defcal(rng: &mut Rng, mode: Mode, max_body: u64) -> String {
+/// A random gate-calibration identifier for one of the names of `GATES`.
+pub fn random_header(rng: &mut Rng) -> Header {
     let g = *rng.pick(&GATES);
-    let mut pvars = vec![];
     let params: Vec<String> = (0..g.1)
         .map(|k| {
             if rng.chance(3, 5) {
                 // the same variable twice (U2(%t, %t)) is allowed: the later binding wins
                 let v = if rng.chance(1, 6) { PVARS[0] } else { PVARS[k % 2] };
-                pvars.push(v);
                 format!("%{v}")
             } else {
                 rng.pick(&LITERALS).to_string()
             }
         })
         .collect();
-    let mut qvars = vec![];
     let qubits: Vec<String> = (0..g.2)
         .map(|k| {
             if rng.chance(1, 2) {
-                let v = if rng.chance(1, 6) { QVARS[0] } else { QVARS[k % 3] };
-                qvars.push(v);
-                v.to_string()
+                (if rng.chance(1, 6) { QVARS[0] } else { QVARS[k % 3] }).to_string()
             } else {
                 format!("{}", rng.below(3))
             }
         })
         .collect();
     let modifier = if rng.chance(1, 12) { "DAGGER " } else { "" };
-    let header = if params.is_empty() {
-        format!("DEFCAL {modifier}{} {}:", g.0, qubits.join(" "))
-    } else {
-        format!("DEFCAL {modifier}{}({}) {}:", g.0, params.join(", "), qubits.join(" "))
-    };
-    let cx = Ctx { qvars, pvars, formal: None, rank: g.3, top_level: false, mode };
-    let n = 1 + rng.below(max_body);
-    let body = (0..n).map(|_| body_instruction(rng, &cx)).collect();
-    defcal_text(header, body)
+    Header { gate: Some((g.0, g.3)), mname: "", modifier, params, qubits, formal: None }
 }
 
-/// A random measurement calibration; `elsewhere`: also use the formal target in an uncovered position.
-pub fn random_defcal_measure(rng: &mut Rng, mode: Mode, max_body: u64, elsewhere: bool) -> String {
-    let name = if rng.chance(1, 10) { "!alt" } else { "" };
-    let (q, qvars) = if rng.chance(3, 5) { ("q".to_string(), vec!["q"]) } else { (format!("{}", rng.below(3)), vec![]) };
+/// A random measurement-calibration identifier.
+pub fn random_measure_header(rng: &mut Rng) -> Header {
+    let mname = if rng.chance(1, 10) { "!alt" } else { "" };
+    let q = if rng.chance(3, 5) { "q".to_string() } else { format!("{}", rng.below(3)) };
     let formal = if rng.chance(4, 5) { Some("addr") } else { None };
-    let header = match formal {
-        Some(f) => format!("DEFCAL MEASURE{name} {q} {f}:"),
-        None => format!("DEFCAL MEASURE{name} {q}:"),
+    Header { gate: None, mname, modifier: "", params: vec![], qubits: vec![q], formal }
+}
+
+/// The DEFCAL / DEFCAL MEASURE text for `h` with a random body; `elsewhere`: a measurement calibration also
+/// uses its formal target in a position the code does not rewrite (known finding).
+pub fn defcal_for(rng: &mut Rng, mode: Mode, headers: &[Header], h: &Header, max_body: u64, elsewhere: bool) -> String {
+    let qvars: Vec<&str> = h.qubits.iter().filter(|q| !is_number(q)).map(|q| q.as_str()).collect();
+    let pvars: Vec<&str> = h.params.iter().filter(|p| p.starts_with('%')).map(|p| &p[1..]).collect();
+    let header = match h.gate {
+        Some((name, _)) if h.params.is_empty() => format!("DEFCAL {}{name} {}:", h.modifier, h.qubits.join(" ")),
+        Some((name, _)) => format!("DEFCAL {}{name}({}) {}:", h.modifier, h.params.join(", "), h.qubits.join(" ")),
+        None => match h.formal {
+            Some(f) => format!("DEFCAL MEASURE{} {} {f}:", h.mname, h.qubits[0]),
+            None => format!("DEFCAL MEASURE{} {}:", h.mname, h.qubits[0]),
+        },
     };
-    let cx = Ctx { qvars, pvars: vec![], formal, rank: None, top_level: false, mode };
+    let rank = h.gate.and_then(|g| g.1);
+    let cx = Ctx { headers, qvars, pvars, formal: h.formal, rank, top_level: false, mode };
     let n = 1 + rng.below(max_body);
     let mut body: Vec<String> = (0..n).map(|_| body_instruction(rng, &cx)).collect();
-    if let (true, Some(f)) = (elsewhere, formal) {
+    if let (true, Some(f)) = (elsewhere, h.formal) {
         let at = rng.below(body.len() as u64 + 1) as usize;
-        body.insert(at, formal_elsewhere(rng, f, &q));
+        body.insert(at, formal_elsewhere(rng, f, &h.qubits[0]));
     }
     defcal_text(header, body)
 }
@@ -291,15 +379,13 @@ pub fn random_program(rng: &mut Rng, mode: Mode, ncal: u64, nbody: u64, elsewher
             out.push(one(d));
         }
     }
-    for _ in 0..ncal {
-        let text = if rng.chance(7, 10) {
-            random_defcal(rng, mode, 3)
-        } else {
-            random_defcal_measure(rng, mode, 4, elsewhere)
-        };
+    let headers: Vec<Header> =
+        (0..ncal).map(|_| if rng.chance(7, 10) { random_header(rng) } else { random_measure_header(rng) }).collect();
+    for h in &headers {
+        let text = defcal_for(rng, mode, &headers, h, 3, elsewhere);
         out.push(one(&text));
     }
-    let cx = Ctx { qvars: vec![], pvars: vec![], formal: None, rank: None, top_level: true, mode };
+    let cx = Ctx { headers: &headers, qvars: vec![], pvars: vec![], formal: None, rank: None, top_level: true, mode };
     for _ in 0..nbody {
         let text = body_instruction(rng, &cx);
         out.extend(parse_all(&text));
